@@ -8,6 +8,7 @@ repositories, sources and filters.
 import Proofs.Lemmas.AssocStore
 import Proofs.Lemmas.AssocWrite4
 import Proofs.Lemmas.AssocMore
+import Proofs.Lemmas.AssocPull
 
 namespace C13
 open Pywbem.Proto Pywbem.Model.Assoc
@@ -975,6 +976,173 @@ theorem C13_names_full_converse_of_ends_exist {sv : Server} {ns : Name} {x : Pat
     exact ⟨q, hq, by simp [hqr, hqv]⟩
   exact fetchEnd_of_endOk (hends S (findNs_mem hS).1 a ha y hmem)
 
+/-! ## 12b. fetchable ends along the write path -/
+
+/-- **CreateInstance keeps every stored end fetchable**: if every stored reference end can be fetched
+    before, it can after a successful CreateInstance of an association instance (whose own ends were
+    checked by the request), for all copies in all namespaces. -/
+theorem C13_create_keeps_ends_fetchable {sv sv' : Server} {ns : Name} {a : Inst}
+    (hends : EndsExist sv) (h : createAssoc sv ns a = .ok sv') : EndsExist sv' := by
+  have hnew := createAssoc_ends_ok h
+  obtain ⟨_, _, hrepo⟩ := createAssoc_ok h
+  have hsv' : sv' = { sv with repo := mapInsts sv.repo (createF (otherNamespaces a ns ++ [ns]) a) } := by
+    unfold createAssoc at h
+    cases hS : findNs sv.repo ns with
+    | none => simp [hS] at h
+    | some S =>
+      simp only [hS] at h
+      split at h
+      · cases h
+      · split at h
+        · cases h
+        · split at h
+          · cases h
+          · split at h
+            · cases h
+            · split at h
+              · cases h
+              · cases h
+                rw [foldl_addInst_eq a _ _ (nodup_other_target a ns)]
+  have htrans : ∀ v, endOk sv v = true → endOk sv' v = true := by
+    intro v hv
+    rw [hsv']
+    exact endOk_mapInsts (fun T _ i hi he => ⟨i, createF_old hi, he⟩) hv
+  intro S' hS' b hb v hv
+  rw [hsv'] at hS'
+  obtain ⟨S, hS, rfl⟩ := mem_mapInsts.mp hS'
+  rcases createF_mem hb with hb | ⟨_, n, rfl, _⟩
+  · exact htrans v (hends S hS b hb v hv)
+  · exact htrans v (hnew v hv)
+
+/-- **DeleteInstance of an association instance keeps every stored end fetchable** provided the deleted
+    instance (and its copies) is not itself the end of a stored association (`_partial`: the excluded input
+    class is the open finding C13-KF1 — DeleteInstance performs no referential check, so deleting a
+    referenced instance leaves a dangling end). -/
+theorem C13_delete_keeps_ends_fetchable_partial {sv sv' : Server} {ns : Name} {p : Path}
+    (hends : EndsExist sv)
+    (hnot : ∀ S ∈ sv.repo, ∀ a ∈ S.insts, ∀ v ∈ ends a, ∀ T ∈ sv.repo, ∀ i ∈ T.insts,
+      i.path.eqv v = true → pkEq i.path p = false)
+    (h : deleteAssoc sv ns p = .ok sv') : EndsExist sv' := by
+  have hex : ∃ orig : Inst, pkEq orig.path p = true ∧
+      sv'.repo = delInsts sv.repo (otherNamespaces orig ns ++ [ns]) orig.path := by
+    unfold deleteAssoc at h
+    cases hS0 : findNs sv.repo ns with
+    | none => simp [hS0] at h
+    | some S0 =>
+      simp only [hS0] at h
+      split at h
+      · cases h
+      · cases hf : findInst S0.insts (srcPath ns p) with
+        | none => simp [hf] at h
+        | some o =>
+          simp only [hf] at h
+          split at h
+          · cases h
+          · cases h
+            have ho := findInst_mem hf
+            have : pkEq o.path (srcPath ns p) = true := pkEq_of_eqv ho.2
+            exact ⟨o, by simpa [pkEq, srcPath] using this, rfl⟩
+  obtain ⟨orig, hop, hrepo⟩ := hex
+  rw [delInsts_eq] at hrepo
+  intro S' hS' b hb v hv
+  rw [hrepo] at hS'
+  obtain ⟨S, hS, rfl⟩ := mem_mapInsts.mp hS'
+  have hbS : b ∈ S.insts := by
+    by_cases hc : inNss (otherNamespaces orig ns ++ [ns]) S.name = true
+    · simp only [hc, if_true] at hb; exact (List.mem_filter.mp hb).1
+    · simp only [hc] at hb; exact hb
+  have hold := hends S hS b hbS v hv
+  rw [endOk_congr_repo (sv2 := { sv with repo := mapInsts sv.repo _ }) hrepo]
+  apply endOk_mapInsts _ hold
+  intro T hT i hi he
+  refine ⟨i, ?_, he⟩
+  have hnp : pkEq i.path orig.path = false := by
+    have h1 := hnot S hS b hbS v hv T hT i hi he
+    rw [pkEq_congr_right hop]; exact h1
+  by_cases hc : inNss (otherNamespaces orig ns ++ [ns]) T.name = true
+  · simp only [hc, if_true]; exact List.mem_filter.mpr ⟨hi, by simp [hnp]⟩
+  · simp only [hc]; exact hi
+
+/-! ## 13. the Open… / Iter… variants deliver the result of the traditional traversal
+
+Composition with C14's pull model (`Pywbem.Model.Pull`, `Proofs/Lemmas/Pull.lean`; imported, not edited):
+`openAssociatorPaths` etc. (`Model/AssocPull.lean`) compute the traditional result list and open an
+enumeration session on it; objects travel as positions in that list (`sessionObjs`, `decodeObjs`). -/
+
+open Pywbem.Model
+
+/-- an Open… variant fails exactly when the traditional operation fails, with the same error, and
+    otherwise starts its session on the traditional result -/
+theorem C13_open_variant_starts_on_traditional {sv : Server} {ns : Name} {x : Path} {f : AFilter}
+    {p : Pull.OpenParams} {nsId : Nat} {max : Option Int} :
+    (∀ e, openAssociatorPaths sv ns x f p nsId max = .error e ↔ associatorNamesSetI sv ns x f = .error e) ∧
+    (∀ op, openAssociatorPaths sv ns x f p nsId max = .ok op ↔
+      ∃ l, associatorNamesSetI sv ns x f = .ok l ∧ op = .open p .paths nsId (sessionObjs l) max) := by
+  unfold openAssociatorPaths openOn
+  cases associatorNamesSetI sv ns x f with
+  | error e => simp
+  | ok l => simp [eq_comm]
+
+/-- the answer to the Open request itself: either the whole traditional result at once (end of
+    sequence, no context), or a first batch that is a prefix of it together with a fresh context whose
+    recorded result set is the traditional result (or a refusal of the session parameters) -/
+theorem C13_open_response_on_traditional {α : Type} (l : List α) (s : Pull.State) (h : Proofs.Pull.Hist)
+    (p : Pull.OpenParams) (kind : Pull.Kind) (nsId : Nat) (max : Option Int) :
+    let op : Pull.Op := .open p kind nsId (sessionObjs l) max
+    (∃ e, (Pull.step s op).2 = .err e) ∨
+    (∃ b, (Pull.step s op).2 = .batch b true none ∧ decodeObjs l b = l.map some) ∨
+    (∃ b i, (Pull.step s op).2 = .batch b false (some i) ∧
+      (Proofs.Pull.histStep h op (Pull.step s op).2).orig i = sessionObjs l ∧
+      ∃ k, decodeObjs l b = (l.take k).map some) := by
+  intro op
+  rcases Proofs.Pull.stepOpen_cases s p kind nsId (sessionObjs l) max with ⟨e, he⟩ | ⟨_, hall⟩ | ⟨_, hpart⟩
+  · left; exact ⟨e, by simp [op, Pull.step, he]⟩
+  · right; left
+    exact ⟨sessionObjs l, by simp [op, Pull.step, hall], decode_sessionObjs l⟩
+  · right; right
+    refine ⟨(sessionObjs l).take (Pull.effMax max), s.nextId, by simp [op, Pull.step, hpart], ?_, Pull.effMax max, ?_⟩
+    · simp [op, Pull.step, hpart, Proofs.Pull.histStep]
+    · unfold decodeObjs sessionObjs
+      rw [List.take_range]
+      apply List.ext_getElem
+      · simp [List.length_take]
+      · intro i h1 h2
+        simp at h1
+        simp [List.getElem_take]
+
+/-- **every session delivers the traditional traversal result** (C14's exactly-once invariant applied to
+    the result list): in ANY history of Open / Pull / Close requests of any sessions, a session whose
+    recorded result set is the traditional result `l` has, once it reported end of sequence, delivered
+    exactly `l` — every object once, in order; a session still open or closed early has delivered a
+    prefix of `l`.  This is what IterAssociatorInstancePaths etc. hand to the caller when the server
+    supports pull operations. -/
+theorem C13_open_variants_deliver_traditional {α : Type} (l : List α) (nss : List Nat) (ops : List Pull.Op) :
+    let r := Proofs.Pull.runH { nss := nss } Proofs.Pull.Hist.empty ops
+    ∀ i, r.2.orig i = sessionObjs l →
+      (r.2.st i = .eos → decodeObjs l (r.2.del i) = l.map some) ∧
+      (r.2.st i = .closed → ∃ k, decodeObjs l (r.2.del i) = (l.take k).map some) := by
+  intro r i horig
+  have hrel := (Proofs.Pull.rel_run ops (Proofs.Pull.inv_init nss) (Proofs.Pull.rel_init nss)).2
+  constructor
+  · intro hst
+    have : r.2.del i = r.2.orig i := hrel.eos i hst
+    rw [this, horig]; exact decode_sessionObjs l
+  · intro hst
+    have hpre : r.2.del i <+: r.2.orig i := hrel.closed i hst
+    rw [horig] at hpre
+    obtain ⟨t, ht⟩ := hpre
+    refine ⟨(r.2.del i).length, ?_⟩
+    have hd : r.2.del i = (sessionObjs l).take (r.2.del i).length := by
+      rw [← ht]; simp
+    rw [hd]
+    unfold decodeObjs sessionObjs
+    rw [List.take_range]
+    apply List.ext_getElem
+    · simp [List.length_take]
+    · intro j h1 h2
+      simp at h1
+      simp [List.getElem_take]
+
 /-! ## 10. non-vacuity and negation witnesses (closed instances, checked by evaluation) -/
 
 section Witness
@@ -1160,6 +1328,15 @@ example : Ranked classes (fun n => if n = ['n'] then 0 else if n = ['m'] then 1 
 example : dedupPaths [pa 1, { pa 1 with cls := ['n'] }, pa 2, pa 1] = [pa 1, pa 2] := by decide
 
 example : EndsExist svGood := by unfold EndsExist; decide
+
+/-- non-vacuity: an Open session on the traversal result of node 1 (three associators), first batch of
+    two, one pull: end of sequence, all three delivered in order -/
+example :
+    (openAssociatorPaths svGood nsA (pa 1) {} {} 0 (some 2)).toOption.map (fun op =>
+      let r := Proofs.Pull.runH { nss := [0] } Proofs.Pull.Hist.empty [op, .pull .paths (some 0) (some 5)]
+      (r.2.st 0, decodeObjs [fillHost hostH (pa 2), fillHost hostH (pa 3), fillHost hostH (pa 4)] (r.2.del 0))) =
+    some (.eos, [some (fillHost hostH (pa 2)), some (fillHost hostH (pa 3)), some (fillHost hostH (pa 4))]) := by
+  decide
 
 end Witness
 
